@@ -26,6 +26,13 @@ Given CP_CANFDTxMaxDataLength values alternate between CAN-FD and classic CAN wi
 different protocols disagree; uses_can / uses_can_fd / get_can_fd_baudrate / get_max_can_payload_size are judged per
 protocol query (refcomparam.can_fd_expectation).
 
+Re-resolution phase ("refresh"): every configuration of a bounded set (hierarchies <= 2 layers with given / omitted
+values, 3 layers without shared data with given values) is loaded with ONE CONTAINER PER LAYER, once with the parents'
+containers added first and once with the children's first; then every single edit of a menu (per layer and qualifier:
+remove / replace / add its COMPARAM-REFs; drop one PARENT-REF) is applied to the raw layer data, Database.refresh() is
+called and ALL of the queries above are compared with the reference on the edited description and with a database freshly
+loaded from the edited description (DON'T-CARE answers excepted); the edit is undone before the next one.
+
 The oracle is three-valued where the property text is silent -- see odxmodel/refcomparam.py.  The lookup and accessor
 oracles are evaluated on the view / on the instance the real code produced, so one root cause gives one finding key.
 """
@@ -35,7 +42,7 @@ import itertools
 import warnings
 from typing import Any, Dict, List, Optional, Sequence, Tuple
 
-from mcx.core import Ctx, Part, digest, pmap
+from mcx.core import Ctx, HarnessError, Part, digest, pmap
 from odxmodel import emit_comparam as ec
 from odxmodel import refcomparam as ref
 
@@ -70,8 +77,11 @@ def _tag(cp: Any) -> Optional[str]:
 
 def check_hierarchy(db: Any, prefix: str, types: Sequence[str], parents: Sequence[Sequence[int]],
                     local: Sequence[Sequence[Dict[str, Any]]], params: Sequence[str],
-                    stats: Optional[Part] = None, variant: str = "flat") -> List[Tuple[str, str]]:
-    """All oracle comparisons for one hierarchy of a loaded database -> [(finding key, detail)]."""
+                    stats: Optional[Part] = None, variant: str = "flat",
+                    record: Optional[List[Dict[str, Any]]] = None) -> List[Tuple[str, str]]:
+    """All oracle comparisons for one hierarchy of a loaded database -> [(finding key, detail)].
+    record (if given) receives per layer everything that was observed (for the differential comparison of a refreshed
+    database with a freshly loaded one)."""
     out: List[Tuple[str, str]] = []
     lnames = ref.layer_names(types, prefix)
     by_tag = ref.index_instances(local)
@@ -86,6 +96,9 @@ def check_hierarchy(db: Any, prefix: str, types: Sequence[str], parents: Sequenc
     for i, t in enumerate(types):
         layer = db.diag_layers[lnames[i]]
         where = f"layer {i} ({t})"
+        o: Dict[str, Any] = {"view": [], "lookup": {}, "values": {}, "acc": {}}
+        if record is not None:
+            record.append(o)
         if t == ref.ESD:
             if list(getattr(layer, "comparam_refs", [])):
                 out.append(("C15/view/shared-data-layer-has-parameters", where))
@@ -98,6 +111,7 @@ def check_hierarchy(db: Any, prefix: str, types: Sequence[str], parents: Sequenc
         for cp in layer.comparam_refs:
             tag = _tag(cp)
             key = (cp.short_name, _strip(cp.protocol_snref, prefix))
+            o["view"].append([key[0], key[1], tag, getattr(cp, "prot_stack_snref", None)])
             if tag is None or tag not in by_tag:
                 out.append(("C15/view/unknown-instance", f"{where}: entry {key} carries no known marker ({tag!r})"))
                 broken = True
@@ -142,6 +156,7 @@ def check_hierarchy(db: Any, prefix: str, types: Sequence[str], parents: Sequenc
             continue  # the lookups below are judged relative to a sane view only
         # ---------------- lookup ----------------
         found: Dict[Tuple[str, Optional[str]], Optional[str]] = {}
+        dontcare = set()  # (parameter, protocol) queries whose answer the property leaves open
         for param in list(params) + [UNKNOWN_PARAM]:
             for q, form in ((None, "none"), ("P1", "str"), ("P2", "str"), ("P1", "obj"), ("P2", "obj")):
                 arg = None if q is None else (prefix + q if form == "str" else proto_objs[q])
@@ -152,11 +167,15 @@ def check_hierarchy(db: Any, prefix: str, types: Sequence[str], parents: Sequenc
                         got = layer.get_comparam(param, protocol=arg)
                 except Exception as e:  # noqa: BLE001
                     out.append((f"C15/get_comparam/raises-{type(e).__name__}", f"{where}: get_comparam({param}, {q}/{form}): {e}"))
+                    o["lookup"][f"{param}/{q}/{form}"] = "raises " + type(e).__name__
                     continue
                 got_tag = None if got is None else _tag(got)
                 adm, why = ref.lookup(observed, param, q, parents, by_tag)
                 if len(adm) > 1:
                     cnt("lookups_dontcare")
+                    dontcare.add((param, q))
+                else:
+                    o["lookup"][f"{param}/{q}/{form}"] = got_tag  # (DON'T-CARE answers are not compared differentially)
                 if form == "str" or q is None:
                     found[(param, q)] = got_tag if (got is None or got_tag in by_tag) else "?"
                 if got_tag in adm:
@@ -201,7 +220,9 @@ def check_hierarchy(db: Any, prefix: str, types: Sequence[str], parents: Sequenc
                         with warnings.catch_warnings():
                             warnings.simplefilter("ignore")
                             got = cp.get_subvalue(sub)
+                        o["values"][f"{tag}/{sub}"] = got
                     except Exception as e:  # noqa: BLE001
+                        o["values"][f"{tag}/{sub}"] = "raises " + type(e).__name__
                         out.append((f"C15/get_subvalue/raises-{type(e).__name__}/{'omitted' if omitted else 'given'}",
                                     f"{where}: {tag}.get_subvalue({sub}): {e}"))
                         bad_reads.add((tag, sub))
@@ -218,7 +239,9 @@ def check_hierarchy(db: Any, prefix: str, types: Sequence[str], parents: Sequenc
                 omitted = inst.get("value") is None
                 try:
                     got = cp.get_value()
+                    o["values"][tag] = got
                 except Exception as e:  # noqa: BLE001
+                    o["values"][tag] = "raises " + type(e).__name__
                     out.append((f"C15/get_value/raises-{type(e).__name__}/{'omitted' if omitted else 'given'}", f"{where}: {tag}.get_value(): {e}"))
                     bad_reads.add((tag, None))
                     continue
@@ -253,7 +276,10 @@ def check_hierarchy(db: Any, prefix: str, types: Sequence[str], parents: Sequenc
                     with warnings.catch_warnings():
                         warnings.simplefilter("ignore")
                         got = fn(protocol=None if q is None else prefix + q)
+                    if (param, q) not in dontcare:
+                        o["acc"][f"{acc}/{q}"] = got
                 except Exception as e:  # noqa: BLE001
+                    o["acc"][f"{acc}/{q}"] = "raises " + type(e).__name__
                     out.append((f"C15/accessor/{acc}/raises-{type(e).__name__}/{'omitted-value' if omitted else 'given-value'}",
                                 f"{where}: {acc}(protocol={q}) on instance {base_tag} ({_show(inst)}): {type(e).__name__}: {e}"))
                     continue
@@ -295,7 +321,10 @@ def check_hierarchy(db: Any, prefix: str, types: Sequence[str], parents: Sequenc
                         with warnings.catch_warnings():
                             warnings.simplefilter("ignore")
                             got = getattr(layer, acc)(protocol=None if q is None else prefix + q)
+                        if not any((g, q) in dontcare for g in gate):
+                            o["acc"][f"{acc}/{q}"] = got
                     except Exception as e:  # noqa: BLE001
+                        o["acc"][f"{acc}/{q}"] = "raises " + type(e).__name__
                         out.append((f"C15/accessor/{acc}/raises-{type(e).__name__}/{'omitted-value' if omitted else 'given-value'}",
                                     f"{where}: {acc}(protocol={q}): {type(e).__name__}: {e}; resolved {tg}"))
                         continue
@@ -372,6 +401,158 @@ def configs_for(types: Sequence[str], parents: Sequence[Sequence[int]], placemen
     return out
 
 
+# ---------------------------------------------------------------------------------------------
+# re-resolution: edit the loaded object graph, Database.refresh(), compare with the reference on the EDITED description
+# and with a database freshly loaded from the edited description
+# ---------------------------------------------------------------------------------------------
+def edit_menu(case: Dict[str, Any]) -> List[List[Any]]:
+    """Every single edit of the menu: for every layer that can carry parameters and every qualifier {generic, P1, P2}:
+    remove the layer's COMPARAM-REFs with that qualifier / replace them by new ones with other values (if it has some) or
+    add some (if it has none) -- for all parameters of the case at once, as they were placed; drop one PARENT-REF."""
+    out: List[List[Any]] = []
+    for i, t in enumerate(case["types"]):
+        if t == ref.ESD:
+            continue
+        have = {inst["proto"] for inst in case["local"][i]}
+        for q in ref.PROTOS:
+            if q in have:
+                out.append(["remove-instances", i, q])
+                out.append(["replace-instances", i, q])
+            else:
+                out.append(["add-instances", i, q])
+    for i, ps in enumerate(case["parents"]):
+        for p_ in ps:
+            out.append(["remove-parent-ref", i, p_])
+    return out
+
+
+def edited_case(case: Dict[str, Any], edit: List[Any]) -> Dict[str, Any]:
+    c = dict(case, local=[list(l) for l in case["local"]], parents=[list(p_) for p_ in case["parents"]])
+    variant = case.get("variant", "flat")
+    if edit[0] == "remove-instances":
+        c["local"][edit[1]] = [x for x in c["local"][edit[1]] if x["proto"] != edit[2]]
+    elif edit[0] == "replace-instances":
+        c["local"][edit[1]] = [(x if x["proto"] != edit[2] else
+                                dict(ref.make_instance(edit[1], x["param"], edit[2], 0, variant, 1), **({"pstack": x["pstack"]} if x.get("pstack") else {})))
+                               for x in c["local"][edit[1]]]
+    elif edit[0] == "add-instances":
+        c["local"][edit[1]] = c["local"][edit[1]] + [ref.make_instance(edit[1], p_, edit[2], 0, variant) for p_ in case["params"]]
+    elif edit[0] == "remove-parent-ref":
+        c["parents"][edit[1]].remove(edit[2])
+    return c
+
+
+def apply_edit(db: Any, case: Dict[str, Any], ecase: Dict[str, Any], edit: List[Any], prefix: str = "h0_") -> List[Tuple[Any, str, Any]]:
+    """Perform the edit on the loaded object graph (raw layer data only, new COMPARAM-REFs come from the public
+    ComparamInstance.from_et); -> undo list [(object, attribute, old value)]."""
+    from xml.etree import ElementTree
+    from odxtools.comparaminstance import ComparamInstance
+    lnames = ref.layer_names(case["types"], prefix)
+    raw = db.diag_layers[lnames[edit[1]]].diag_layer_raw
+    undo: List[Tuple[Any, str, Any]] = []
+    if edit[0] == "remove-parent-ref":
+        hit = [pr for pr in raw.parent_refs if pr.layer_ref.ref_id == lnames[edit[2]]]
+        if len(hit) != 1:
+            raise HarnessError(f"PARENT-REF {edit} not found")
+        undo.append((raw, "parent_refs", raw.parent_refs))
+        raw.parent_refs = [pr for pr in raw.parent_refs if pr is not hit[0]]
+        return undo
+    old = list(raw.comparam_refs)
+    by_tag = {_tag(cp): cp for cp in old}
+    new = []
+    for inst in ecase["local"][edit[1]]:
+        cp = by_tag.get(inst["tag"])
+        if cp is None:
+            cp = ComparamInstance.from_et(ElementTree.fromstring(ec.comparam_ref_xml(inst, prefix)), raw.odx_id.doc_fragments)
+        new.append(cp)
+    undo.append((raw, "comparam_refs", raw.comparam_refs))
+    raw.comparam_refs = new
+    return undo
+
+
+def refresh_problems(case: Dict[str, Any], children_first: bool, part: Optional[Part]) -> List[Tuple[str, str]]:
+    """Load `case` with one container per layer (children's containers before / after their parents'), judge it, then for
+    every edit of the menu in turn: apply it, Database.refresh(), judge all layers against the reference on the edited
+    case, undo it.  Finally compare what every refreshed database showed with a database freshly loaded from the edited
+    case.  -> [(key, detail)]"""
+    import odxtools.exceptions
+    odxtools.exceptions.strict_mode = True
+    out: List[Tuple[str, str]] = []
+    variant = case.get("variant", "flat")
+    how = "children's containers first" if children_first else "parents' containers first"
+    try:
+        db = ec.load_files(ec.split_files(case, children_first))
+    except Exception as e:  # noqa: BLE001
+        return [(f"C15/load/raises-{type(e).__name__}/one-container-per-layer", f"{how}: {type(e).__name__}: {e}")]
+    for key, detail in check_hierarchy(db, "h0_", case["types"], case["parents"], case["local"], case["params"], part, variant):
+        out.append((key + "/one-container-per-layer", f"({how}) {detail}"))
+    if part is not None:
+        part.count("evaluations")
+        part.count("refresh_cases")
+    seen: List[Tuple[List[Any], Dict[str, Any], List[Dict[str, Any]]]] = []
+    for edit in edit_menu(case):
+        ecase = edited_case(case, edit)
+        undo = apply_edit(db, case, ecase, edit)
+        tagk = f"C15/refresh/{edit[0]}/"
+        try:
+            db.refresh()
+        except Exception as e:  # noqa: BLE001
+            out.append((tagk + f"raises-{type(e).__name__}", f"({how}) after {edit}: refresh(): {type(e).__name__}: {e}"))
+        else:
+            obs: List[Dict[str, Any]] = []
+            probs = check_hierarchy(db, "h0_", ecase["types"], ecase["parents"], ecase["local"], ecase["params"], None, variant, obs)
+            for key, detail in probs:
+                out.append((tagk + "/".join(key.split("/")[1:3]), f"({how}) after {edit} and refresh(): {detail}"))
+            if not probs:
+                seen.append((edit, ecase, obs))
+            if part is not None:
+                part.count("evaluations")
+                part.count("refresh_evaluations")
+                part.add("refresh_edit_kinds", edit[0])
+        for obj, attr, oldv in reversed(undo):
+            setattr(obj, attr, oldv)
+    # differential oracle: a refreshed database shows what a database freshly loaded from the edited description shows
+    for lo in range(0, len(seen), BATCH):
+        chunk = seen[lo:lo + BATCH]
+        try:
+            fdb = ec.load_batch([e for _, e, _ in chunk])
+        except Exception:  # noqa: BLE001 -- the main phase judges loading
+            continue
+        for k, (edit, ecase, obs) in enumerate(chunk):
+            fresh: List[Dict[str, Any]] = []
+            check_hierarchy(fdb, f"h{k}_", ecase["types"], ecase["parents"], ecase["local"], ecase["params"], None, variant, fresh)
+            if part is not None:
+                part.count("refresh_differential_comparisons")
+            for i, (a, b) in enumerate(zip(obs, fresh)):
+                a = dict(a, view=sorted(a["view"], key=repr))
+                b = dict(b, view=sorted(b["view"], key=repr))
+                if a != b:
+                    what = next(k_ for k_ in a if a[k_] != b[k_])
+                    diff = a[what] if what == "view" else {k_: (v, b[what].get(k_)) for k_, v in a[what].items() if b[what].get(k_) != v}
+                    out.append((f"C15/refresh/{edit[0]}/differs-from-fresh-load/{what}",
+                                f"({how}) after {edit} and refresh() layer {i} ({ecase['types'][i]}) shows {str(diff)[:300]} "
+                                f"(refreshed, fresh) -- a database loaded from the edited description shows {str(b[what])[:200] if what == 'view' else 'the second'}"))
+                    break
+    return out
+
+
+def refresh_unit(u: Tuple[Any, ...]) -> Part:
+    _, n, hidx, modes, orders = u
+    part = Part()
+    types, parents = hier(n)[hidx]
+    for placement in ref.placements(types, modes):
+        part.count("refresh_vectors")
+        local = ref.make_instances(placement, ref.CORE)
+        for children_first in orders:
+            case = dict(case_of(types, parents, local, ref.CORE), refresh={"children_first": children_first})
+            done = set()
+            for key, detail in refresh_problems(case, children_first, part):
+                if key not in done:
+                    done.add(key)
+                    part.violation(key, case, detail)
+    return part
+
+
 _H: Dict[int, List[ref.Hierarchy]] = {}
 
 
@@ -391,8 +572,10 @@ CROSS_SETS = {
 
 
 def unit(u: Tuple[Any, ...]) -> Part:
-    part = Part()
     kind = u[0]
+    if kind == "refresh":
+        return refresh_unit(u)
+    part = Part()
     buf: List[Dict[str, Any]] = []
     if kind == "aligned":
         # every parameter of the set at the same placement vector
@@ -497,6 +680,17 @@ def plan(quick: bool) -> Tuple[List[Tuple[Any, ...]], Dict[str, Any], int]:
             if t != ref.ESD:
                 units.append(("subsets", t, variant))
                 expect += 3 * 2 ** len(ref.VARIANTS[variant]) * 2
+    # re-resolution after edits (one container per layer, both container orders)
+    bounds["refresh_layers_given_and_omitted"] = 2
+    bounds["refresh_layers_given_only"] = 3
+    bounds["refresh_three_layer_hierarchies"] = "without shared-data layers; " + ("children's containers first only" if quick else "both container orders")
+    for n in range(1, 4):
+        for hidx, h in enumerate(hier(n)):
+            if n == 3 and ref.ESD in h[0]:
+                continue
+            modes: Any = 2 if n <= 2 else (ref.M_GIVEN,)
+            units.append(("refresh", n, hidx, modes, (True,) if (n == 3 and quick) else (False, True)))
+            bounds["refresh_vectors"] = bounds.get("refresh_vectors", 0) + ref.n_placements(h[0], modes)
     return units, bounds, expect
 
 
@@ -553,6 +747,10 @@ def run(ctx: Ctx) -> None:
             "CAN-FD gate: a protocol uses CAN iff CP_UniqueRespIdTable resolves for it, CAN-FD iff additionally "
             "CP_CANFDTxMaxDataLength resolves for it and its effective value contains CANFD; get_can_fd_baudrate(protocol) is the "
             "number of CP_CANFDBaudrate resolved for that protocol if CAN-FD is in use, else None",
+            "re-resolution phase: the description is loaded with ONE DIAG-LAYER-CONTAINER PER LAYER (cross-container PARENT-REFs with "
+            "DOCREF), once with the parents' containers added first and once with the children's first; edits are made on the raw "
+            "layer data (comparam_refs list replaced, new instances from ComparamInstance.from_et; parent_refs list replaced), then "
+            "Database.refresh(); edits are undone before the next one, so every refresh also has to forget the previous edit",
             "lookups and accessors are judged on the view / instance the real code produced (the view itself is judged against the "
             "reference), so one root cause yields one finding key",
             "PROT-STACK-SNREF is not part of the (parameter, protocol) key: an instance with both qualifiers is the protocol-specific "
@@ -581,6 +779,9 @@ def run(ctx: Ctx) -> None:
                   c.get("views_with_inherited_entries", 0) > 0 and c.get("views_with_overridden_ancestor_instances", 0) > 0)
         ctx.guard("both MUST and DON'T-CARE lookups occurred", c.get("lookups_dontcare", 0) > 0 and c.get("lookups", 0) > c.get("lookups_dontcare", 0))
         ctx.guard("typed accessors were compared with numbers", c.get("accessor_calls", 0) > 1000)
+        ctx.guard("re-resolution: every edit kind was applied, refreshed databases were compared with fresh loads, all vectors done",
+                  ctx.sets.get("refresh_edit_kinds", set()) == {"remove-instances", "replace-instances", "add-instances", "remove-parent-ref"}
+                  and c.get("refresh_differential_comparisons", 0) > 1000 and c.get("refresh_vectors", 0) == bounds["refresh_vectors"])
         ctx.guard("every subset of omitted sub-values was generated for every specification variant",
                   len(ctx.sets.get("omitted_subvalue_sets", ())) == sum(2 ** len(v) for v in ref.VARIANTS.values()))
     finally:
@@ -592,6 +793,8 @@ def replay(case: Any) -> List[Tuple[str, str]]:
     old = odxtools.exceptions.strict_mode
     odxtools.exceptions.strict_mode = True
     try:
+        if case.get("refresh") is not None:
+            return refresh_problems(case, bool(case["refresh"]["children_first"]), None)
         try:
             db = ec.load_batch([case])
         except Exception as e:  # noqa: BLE001
